@@ -17,6 +17,10 @@ with contextlib.redirect_stdout(io.StringIO()):
     from pathlib import Path
     from collections import OrderedDict
 
+if os.environ.get('VERIF_MAX_SIZE'):
+    import spil.util.caching as _caching
+    _caching._max_size = int(os.environ['VERIF_MAX_SIZE'])
+
 EXN = {'SpilException': 'SpilException', 'ResolvaException': 'ResolvaException', 'ValueError': 'ValueError',
        'KeyError': 'KeyError', 'TypeError': 'TypeError', 'error': 'ReError', 'JSONDecodeError': 'JSONDecodeError',
        'NotImplementedError': 'NotImplementedError'}
@@ -109,8 +113,23 @@ def do(op, a):
     if op == 'path':
         def f(x):
             def g():
-                p = x.path(a[1] or None)
+                sp = a[2] if len(a) > 2 else 'pos'
+                if sp == 'kw':
+                    p = x.path(config=(a[1] or None))
+                elif sp == 'default' and not a[1]:
+                    p = x.path()
+                else:
+                    p = x.path(a[1] or None)
                 return [] if p is None else [str(p)]
+            return out(g)
+        return with_sid(a[0], f)
+    if op == 'pathroundtrip':
+        def f(x):
+            def g():
+                p = x.path(a[1] or None)
+                if p is None:
+                    return []
+                return [t_sid(Sid(path=str(p), config=(a[2] or None)))]
             return out(g)
         return with_sid(a[0], f)
     if op == 'eq':
@@ -163,6 +182,12 @@ def do(op, a):
         return ['ok', [] if m is None else [pairs(m.groupdict())]]
     if op == 'unfold':
         from spil.sid.read.tools import unfold_search
+        if len(a) > 3 and a[3] == 'pos':
+            return out(lambda: [t_sid(x) for x in unfold_search(a[0], a[1] == '1', a[2] == '1')])
+        if len(a) > 3 and a[3] == 'default' and a[1] == '0' and a[2] == '0':
+            return out(lambda: [t_sid(x) for x in unfold_search(a[0])])
+        if len(a) > 3 and a[3] == 'sidarg':
+            return out(lambda: [t_sid(x) for x in unfold_search(Sid(a[0]), do_uniquify=(a[1] == '1'), do_extrapolate=(a[2] == '1'))])
         return out(lambda: [t_sid(x) for x in unfold_search(a[0], do_uniquify=(a[1] == '1'), do_extrapolate=(a[2] == '1'))])
     if op == 'extensions':
         from spil.sid.read.unfolders.extensions import extensions
@@ -189,6 +214,39 @@ def do(op, a):
         import re as _re
         from spil.sid.read.finders.find_list import glob2re
         return out(lambda: t_bool(_re.match(glob2re(a[0]), a[1]) is not None))
+    if op == 'consume_partial':
+        from spil import FindInList
+        def f():
+            g = FindInList(list(a[0])).find(a[1], as_sid=False)
+            res = []
+            for _ in range(int(a[2])):
+                try:
+                    res.append(next(g))
+                except StopIteration:
+                    break
+            return res
+        return out(f)
+    if op == 'fields_mutate':
+        def f(x):
+            before = [t_sid(x), x.uri, str(hash(x) == hash(Sid(x.uri)))]
+            d = x.fields
+            d[a[1]] = a[2]
+            for k in list(d)[:1]:
+                d.pop(k)
+            d2 = x.fields
+            d2.clear()
+            y = Sid(a[0][1]) if a[0][0] == 's' else x
+            return [t_sid(x), t_sid(y), t_bool(before == [t_sid(x), x.uri, str(hash(x) == hash(Sid(x.uri)))]), t_bool(x.fields is not x.fields)]
+        return with_sid(a[0], lambda x: out(lambda: f(x)))
+    if op == 'eq_hash':
+        def f(x, y):
+            return [t_bool(x == y), t_bool(hash(x) == hash(y)), t_bool(len({x, y}) == 1), t_bool(x == y.string), t_bool(len({x: 1, y: 2}) == 1)]
+        return with_sid(a[0], lambda x: with_sid(a[1], lambda y: out(lambda: f(x, y))))
+    if op == 'sorted':
+        def f():
+            sids = [mk_src(t) for t in a[0]]
+            return [x.string for x in sorted(sids)]
+        return out(f)
     if op == 'dump':
         from spil.sid.pathops.pathconfig import get_path_config
         for name in conf.path_configs.keys():
